@@ -872,7 +872,7 @@ def suite_udp(out, tier, seed):
         try:
             res = await send_udp(Endpoint(ip_address("127.0.0.1"), port), b"request-bytes", timeout=T, retries=retries)
             exc = None
-        except Exception as e:  # noqa
+        except (Exception, asyncio.CancelledError) as e:  # noqa  (a cancelled future leaks out as CancelledError)
             res, exc = None, e
         elapsed = loop.time() - t0
         await asyncio.sleep(T * 2)
